@@ -111,6 +111,14 @@ def PathT.trace (s : PathTState) (q : Req) : List Trace :=
     if found.isEmpty then [] else [Trace.mk true true found.length (.storage found) []]
   [treeT, Trace.mk (!staticT.isEmpty) true s.statics.length (.other "path_and_query_static") staticT]
 
+/-- `PathAndQueryMatcher::cache`: `self.regex_tree_rule.cache(limit, Some(level))`.  `treeCache`
+returns `none` on a `u64` underflow of the budget; it never does (`Rio.C12.cache_total`), the
+fallback value is unreachable (`pathT_cache_ok`). -/
+def PathT.cache (limit level : Nat) (s : PathTState) : PathTState × Nat :=
+  match Tree.treeCache T.engine s.tree limit (some level) with
+  | some r => ({ s with tree := r.1 }, r.2)
+  | none => (s, limit)
+
 def pathTOps : MOps where
   M := PathTState
   empty := PathT.empty T
@@ -120,6 +128,7 @@ def pathTOps : MOps where
   matchReq := PathT.matchReq T
   trace := PathT.trace T
   len := fun s => s.count
+  cache := PathT.cache T
 
 end
 
@@ -230,6 +239,18 @@ def HostT.trace (s : HostTState I) (q : Req) : List Trace :=
   let traces := HostT.traceBound T I s q
   if T.alwaysAnyHost || (routesOfList traces).isEmpty then traces ++ I.trace s.any q else traces
 
+/-- `HostMatcher::cache`: the tree's own regexes (`regex_tree_rule.cache(limit, Some(level))`), the
+static buckets, the tree's buckets (`for matcher in regex_tree_rule.iter_mut()`: the budget is
+threaded through the stored buckets in tree order – `Item.contents`, property C08
+`iter_enumerates` – and every bucket is stored back under its id), then the any-host bucket. -/
+def HostT.cache (limit level : Nat) (s : HostTState I) : HostTState I × Nat :=
+  let rt := (Tree.treeCache T.engine s.tree limit (some level)).getD (s.tree, limit)
+  let rs := cacheAll I level s.statics rt.2
+  let rb := cacheAll I level (rt.1.contents.map (fun e => (e.id, e.val))) rs.2
+  let tree' := rt.1.retain (fun id m => some ((alookup id rb.1).getD m))
+  let ra := I.cache rb.2 level s.any
+  ({ s with statics := rs.1, tree := tree', any := ra.1 }, ra.2)
+
 def hostTOps : MOps where
   M := HostTState I
   empty := HostT.empty T I
@@ -239,6 +260,7 @@ def hostTOps : MOps where
   matchReq := HostT.matchReq T I
   trace := HostT.trace T I
   len := fun s => s.count
+  cache := HostT.cache T I
 
 end
 
